@@ -233,6 +233,81 @@ func optionTimeFunc(c *Ctx, f *ssa.Function, depth int) bool {
 	return ok && uses > 0
 }
 
+// statelessRule: the functions reachable from entries (module code) read no package-level state that can change after
+// initialisation: no global that is assigned, updated in place (map / slice element writes) or mutated through its
+// methods (sync.Map, sync.Pool) outside package initialisation. The results are then functions of the arguments alone.
+func (c *Ctx) statelessRule(rule, label string, entries []*ssa.Function) {
+	if c.mutGlobals == nil {
+		c.mutGlobals = map[*ssa.Global]string{}
+		isInit := func(f *ssa.Function) bool { return f.Name() == "init" || strings.HasPrefix(f.Name(), "init#") }
+		for _, f := range c.Funcs {
+			forEachInstr(f, func(in ssa.Instruction) {
+				switch x := in.(type) {
+				case *ssa.Store:
+					if g, ok := x.Addr.(*ssa.Global); ok && !isInit(f) {
+						c.mutGlobals[g] = "assigned in " + short(f.String())
+					}
+					if ia, ok := x.Addr.(*ssa.IndexAddr); ok && !isInit(f) {
+						if ld, isLd := ia.X.(*ssa.UnOp); isLd && ld.Op == token.MUL {
+							if g, isG := ld.X.(*ssa.Global); isG {
+								c.mutGlobals[g] = "element written in " + short(f.String())
+							}
+						}
+					}
+				case *ssa.MapUpdate:
+					if ld, isLd := x.Map.(*ssa.UnOp); isLd && ld.Op == token.MUL && !isInit(f) {
+						if g, isG := ld.X.(*ssa.Global); isG {
+							c.mutGlobals[g] = "map updated in " + short(f.String())
+						}
+					}
+				}
+			})
+		}
+	}
+	n := 0
+	var bad []string
+	seen := map[string]bool{}
+	fs := c.reachableModuleFuncs(entries)
+	for _, f := range fs {
+		forEachInstr(f, func(in ssa.Instruction) {
+			for _, op := range in.Operands(nil) {
+				g, ok := (*op).(*ssa.Global)
+				if !ok || g.Pkg == nil || !strings.HasPrefix(g.Pkg.Pkg.Path(), modPath) {
+					continue
+				}
+				n++
+				why := c.mutGlobals[g]
+				if ts := types.TypeString(g.Type().(*types.Pointer).Elem(), nil); ts == "sync.Map" || ts == "sync.Pool" {
+					why = "a " + ts
+				}
+				// a module struct that carries a lock next to its data is a stateful object (a cache, a registry)
+				if why == "" {
+					et := g.Type().(*types.Pointer).Elem()
+					if p, isP := et.(*types.Pointer); isP {
+						et = p.Elem()
+					}
+					if n, isN := et.(*types.Named); isN && n.Obj().Pkg() != nil && strings.HasPrefix(n.Obj().Pkg().Path(), modPath) {
+						if st, isS := n.Underlying().(*types.Struct); isS {
+							for i := 0; i < st.NumFields(); i++ {
+								switch types.TypeString(st.Field(i).Type(), nil) {
+								case "sync.Mutex", "sync.RWMutex", "sync.Map", "sync.Pool":
+									why = "a lock-protected stateful object of type " + typeShort(n)
+								}
+							}
+						}
+					}
+				}
+				if why != "" && !seen[g.String()+f.String()] {
+					seen[g.String()+f.String()] = true
+					bad = append(bad, short(f.String())+" uses "+short(g.String())+" ("+why+")")
+				}
+			}
+		})
+	}
+	sort.Strings(bad)
+	c.Check(rule, label+":no-mutable-package-state", len(bad) == 0 && len(fs) > 0, 0, fmt.Sprintf("%d functions reachable from %s, %d uses of package-level variables, none of a variable that changes after initialisation %v", len(fs), label, n, bad))
+}
+
 var safeGlobalTypes = []string{"*regexp.Regexp", "*log/slog.Logger", "*log.Logger", "error", "sync.RWMutex", "sync.Mutex"}
 
 func init() {
@@ -356,8 +431,51 @@ func runC20(c *Ctx) {
 			c.Check("C20.S1", "foreign-var:"+short(f.String())+"="+g.String(), false, st.Pos(), fmt.Sprintf("%s assigns %s, a package-level variable of another package: every goroutine using that package sees the change (and the write races with their reads)", short(f.String()), g.String()))
 		})
 	}
+	// containers that are mutated through their methods (sync.Map, sync.Pool) escape the assignment and store rules
+	// above: a package-level or per-component cache / object pool carries state from one call (goroutine) to the next.
+	// None exists on the reference tree; one that appears is reported for review rather than assumed correct.
+	{
+		var found []string
+		hasInner := func(t types.Type) string {
+			s := types.TypeString(t, nil)
+			for _, bad := range []string{"sync.Map", "sync.Pool"} {
+				if s == bad || s == "*"+bad {
+					return bad
+				}
+			}
+			return ""
+		}
+		for _, g := range globals {
+			if b := hasInner(g.Type().(*types.Pointer).Elem()); b != "" {
+				found = append(found, short(g.String())+" ("+b+")")
+			}
+		}
+		for path, p := range c.TPkg {
+			if !strings.HasPrefix(path, modPath) || isMockPath(path) || p.Types == nil {
+				continue
+			}
+			sc := p.Types.Scope()
+			for _, name := range sc.Names() {
+				tn, ok := sc.Lookup(name).(*types.TypeName)
+				if !ok {
+					continue
+				}
+				st, ok := tn.Type().Underlying().(*types.Struct)
+				if !ok {
+					continue
+				}
+				for i := 0; i < st.NumFields(); i++ {
+					if b := hasInner(st.Field(i).Type()); b != "" {
+						found = append(found, strings.TrimPrefix(path, modPkg)+"."+name+"."+st.Field(i).Name()+" ("+b+")")
+					}
+				}
+			}
+		}
+		sort.Strings(found)
+		c.Check("C20.S1", "no-method-mutated-shared-containers", len(found) == 0, 0, fmt.Sprintf("package-level variables and struct fields of type sync.Map / sync.Pool in the module: %v", found))
+	}
 	c.Check("C20.S1", "no-assignment-to-foreign-package-variables", nForeign == 0, 0, fmt.Sprintf("%d module functions scanned: none assigns a package-level variable of a third-party or standard-library package", len(c.Funcs)))
-	c.Min("C20.S1", 21)
+	c.Min("C20.S1", 22)
 
 	// reads of guarded globals need the lock too
 	for _, f := range c.Funcs {
